@@ -71,9 +71,9 @@ func body(c cfg) func() {
 
 		// ---- subscriber: folds what it receives
 		var subAt int64
-		var vEvents []string           // value / id: delivered values in order
-		view := map[string]string{}    // coll: folded view
-		touched := map[string]bool{}   // coll: ids with at least one delivered event
+		var vEvents []string         // value / id: delivered values in order
+		view := map[string]string{}  // coll: folded view
+		touched := map[string]bool{} // coll: ids with at least one delivered event
 		var cEvents []string
 		ended := false
 		go func() {
